@@ -109,7 +109,7 @@ func modifyBag(s *slip.Scope, obj *flavors.Instance, args slip.List, depth int) 
 			}
 		}
 	}
-	if x == nil {
+	if x == nil || (len(x) == 1 && x[0] == jp.Root('$')) {
 		obj.Any = modifyValue(s, obj.Any, caller, asBag, depth)
 	} else {
 		obj.Any = x.MustModify(obj.Any, func(element any) (altered any, changed bool) {
